@@ -37,6 +37,18 @@ def independent_shape(g):
     return geometry_to_shapely(g)
 
 
+def even_odd_inside(poly, x, y):
+    """ray casting over all rings, written out here: for a ring that crosses itself shapely's predicates are undefined; the
+    stand-in only uses self-crossing rings on which the even-odd and the non-zero rule agree (an hourglass)"""
+    inside = False
+    for ring in [poly.exterior] + list(poly.interiors):
+        pts = list(ring.coords)
+        for (x1, y1), (x2, y2) in zip(pts, pts[1:]):
+            if (y1 > y) != (y2 > y) and x < x1 + (y - y1) * (x2 - x1) / (y2 - y1):
+                inside = not inside
+    return inside
+
+
 def reference(geoms, values, arr, fill, all_touched):
     nt, nf = arr.sizes["time"], arr.sizes["frequency"]
     out = np.full((nt, nf), fill, dtype=float)
@@ -51,12 +63,13 @@ def reference(geoms, values, arr, fill, all_touched):
                 return len(c)
             return max(k for k in range(len(c)) if c[k] <= x)
         shp = shapely.transform(independent_shape(g), lambda cs: np.array([[index(tc, x), index(fc, y)] for x, y in cs], dtype=float))
+        crossing = g.type == "Polygon" and not shp.is_valid
         for i in range(nt):
             for j in range(nf):
                 centre = shapely.Point(i + 0.5, j + 0.5)
                 if shp.boundary.distance(centre) < 1e-9:
                     amb[i, j] = True
-                elif shp.contains(centre):
+                elif even_odd_inside(shp, i + 0.5, j + 0.5) if crossing else shp.contains(centre):
                     out[i, j] = v
     return out, amb
 
@@ -83,7 +96,9 @@ def main():
             holed = data.Polygon(coordinates=[ring(0, 0, nt - 1, nf - 1), ring(1.2, 1.2, nt - 2.2, nf - 2.2)])
             multi = data.MultiPolygon(coordinates=[[ring(0, 0, 2.6, nf - 1), ring(0.7, 0.7, 1.9, nf - 1.7)],
                                                    [ring(2.9, 0, nt - 1, nf - 1), ring(3.2, 1.1, nt - 1.3, nf - 1.4), ring(3.2, 0.2, nt - 1.3, 0.8)]])
-            cases += [([holed], 5), ([multi], 6)]
+            # a ring that crosses itself (hourglass): both lobes are inside under either filling rule
+            hourglass = data.Polygon(coordinates=[[[t0, f0], [t0 + (nt - 1) * dt, f0 + (nf - 1) * df], [t0 + (nt - 1) * dt, f0], [t0, f0 + (nf - 1) * df]]])
+            cases += [([holed], 5), ([multi], 6), ([hourglass], 7)]
         for geoms, values in cases:
             for fill, at in ((0, False), (-1, False), (0, True)):
                 key = f"{nt}x{nf}:{dt}:{t0}:{order[0]}:{[g.coordinates for g in geoms]}:{values}:{fill}:{at}"
